@@ -47,7 +47,7 @@ def lean_obligations(prop, spec, thorough):
     rc, out = sh([sys.executable, os.path.join(ROOT, "tools", "extract.py")], timeout=300)
     obs.append(("translator: tools/extract.py regenerates SemVerif/Generated.lean from /repo/src", rc == 0, out.strip()[-400:]))
     if rc != 0:
-        return obs, False
+        return obs, os.path.exists(os.path.join(LEAN, ".lake", "build", "bin", "driver"))
     mods = spec["modules"]
     if thorough:
         for m in mods:
@@ -55,7 +55,12 @@ def lean_obligations(prop, spec, thorough):
                 f = os.path.join(LEAN, ".lake", "build", "lib", "lean", *m.split(".")) + "." + ext
                 if os.path.exists(f):
                     os.remove(f)
-    rc, out = sh(["lake", "build"] + mods + ["driver"], cwd=LEAN, timeout=3600)
+    rc0, out0 = sh(["lake", "build", "driver"], cwd=LEAN, timeout=3600)
+    driver_ok = rc0 == 0
+    if not driver_ok:
+        errs = re.findall(r"error: ([^\n]*)", out0)
+        obs.append(("lake build driver (executable model, specifications, predicates)", False, "; ".join(errs[:6])[-800:]))
+    rc, out = sh(["lake", "build"] + mods, cwd=LEAN, timeout=3600)
     build_ok = rc == 0
     if not build_ok:
         # find which theorem/module failed
@@ -96,7 +101,7 @@ def lean_obligations(prop, spec, thorough):
             if m.startswith("SemVerif.Props"):
                 rc, out = sh(["lake", "env", "leanchecker", m], cwd=LEAN, timeout=3600)
                 obs.append(("leanchecker %s" % m, rc == 0, out.strip()[-300:]))
-    return obs, build_ok
+    return obs, driver_ok
 
 
 def gen_cases(exe, profile, seed, count, path, extra=None):
